@@ -137,7 +137,7 @@ class C04(Prop):
     pid = "C04"
     title = "file views resolve RVAs through the section table"
     thm_modules = ["PeliteModel.Thm.C04"]
-    gens = [gen_img.gen_c04]
+    gens = [gen_img.gen_c04, gen_img.gen_c04_firstmatch]
 
     def nontrivial(self, op, impl):
         return impl.startswith("ok ")
